@@ -450,7 +450,7 @@ theorem materialize_fit (env : Env) (spec0 : Spec) (hnone : spec0.structure_ = n
         simp only [hb, liftS, Except.ok.injEq, Prod.mk.injEq] at h
         obtain ⟨rfl, rfl⟩ := h
         have hprep := prepare_idem hp (some (rs.map structOf)) ts es
-        have hstable := k5 ts es (extends_refl _) (extends_refl _)
+        have hstable := k5 ts es (texends_refl _) (extends_refl _)
         refine ⟨?_, k1, hprep, ?_⟩
         · intro x hx
           exact k4 x (mem_dedupStr.2 hx)
